@@ -16,9 +16,11 @@ macro_rules! ctr_core_case {
             let pos: $ct = kani::any();
             kani::assume(pos <= <$ct>::MAX - NB as $ct);
             let c = UfE::<$bs, $par>::with_key(kani::any());
-            // specification: keystream blocks pos .. pos+NB
+            // specification: keystream blocks pos .. pos+NB (+2 for the single-block API, if they exist)
             let mut ks = [0u8; NB * B];
             spec::ctr_ks(c.p(), $spec, &iv, pos as u128, &mut ks);
+            let mut ks2 = [0u8; 2 * B];
+            spec::ctr_ks(c.p(), $spec, &iv, pos as u128 + NB as u128, &mut ks2);
             let l0 = spec::ctr_layout($spec, &iv, B, pos as u128);
             let l3 = spec::ctr_layout($spec, &iv, B, pos as u128 + NB as u128);
             // implementation
@@ -54,8 +56,24 @@ macro_rules! ctr_core_case {
                 assert!(st[j] == l3[j], "iv_state after NB blocks");
                 j += 1;
             }
+            // single-block core API: in place, then buffer-to-buffer into a dirty block, then raw keystream
+            if pos <= <$ct>::MAX - NB as $ct - 3 {
+                let one: [u8; B] = kani::any();
+                let mut b1 = one;
+                core.apply_keystream_block_inout(blk_mut::<$bs>(&mut b1).into());
+                let mut out: [u8; B] = kani::any();
+                core.apply_keystream_block_inout((blk::<$bs>(&one), blk_mut::<$bs>(&mut out)).into());
+                let mut j = 0;
+                while j < B {
+                    assert!(b1[j] == one[j] ^ ks2[j], "apply_keystream_block_inout (in place) differs");
+                    assert!(out[j] == one[j] ^ ks2[B + j], "apply_keystream_block_inout (buffer to buffer) differs");
+                    j += 1;
+                }
+                assert!(core.get_block_pos() == pos + NB as $ct + 2);
+            }
             kani::cover!(true);
             kani::cover!(pos == <$ct>::MAX - NB as $ct);
+            kani::cover!(pos <= <$ct>::MAX - NB as $ct - 3);
         }
     };
 }
